@@ -351,6 +351,13 @@ def wl_coherent(ctx, idx, rng):
                               None, {"what": "supplied_chirp"})
             if not monitors.same_time(out.start_time, out2.start_time, 0):
                 ctx.violation("coherent", "supplied chirp changed the start time", None, {"what": "supplied_chirp_start"})
+        if isinstance(ch, np.ndarray) and ch.flags.writeable and N <= 4096:
+            # the caller then windows / conjugates its chirp array in place; a later call with the internal chirp is judged as usual
+            with probes.quiet():
+                np.conjugate(ch, out=ch)
+                ch *= 0.5
+            ctx.count("history[chirp_modified_by_caller]")
+            ctx.call("coherent", pb.coherent_dedispersion, sig, dm, where="coherent_dedispersion after the caller modified a chirp array", **kw)
     elif sub == 1 and N >= 100 and target < N * 0.15:
         # DM then -DM restores a compactly supported input at the same absolute times
         with probes.quiet():
@@ -397,7 +404,16 @@ def wl_chirp_fn(ctx, idx, rng):
     refq = (refhz * u.Hz).to(gen.pick(rng, [u.Hz, u.MHz, u.GHz]))
     desc = {"N": N, "dt": str(dt), "fc": str(fcq), "ref": str(refq), "dm": str(dm), "dask": use_dask}
     ctx.describe_case(desc)
-    ctx.call("chirp", dm.chirp_function, N, dt, fcq, refq, use_dask)
+    r1, e1 = ctx.call("chirp", dm.chirp_function, N, dt, fcq, refq, use_dask)
+    if e1 is None and isinstance(r1, np.ndarray) and r1.flags.writeable and rng.random() < 0.6:
+        # the caller goes on to modify the chirp it was given (windowing, conjugating in place); the same request made again -
+        # directly, with an equal DM object, or through a dedispersion call - must still give the cold-plasma chirp
+        with probes.quiet():
+            np.conjugate(r1, out=r1)
+            r1 *= 0.5
+        ctx.count("history[chirp_modified_by_caller]")
+        dm2 = pb.DispersionMeasure(dm.value * dm.unit) if rng.random() < 0.5 else dm
+        ctx.call("chirp", dm2.chirp_function, N, dt, fcq, refq, False, where="chirp_function again after the caller modified the first result")
     ctx.bucket("chirp_fn", N, use_dask, dmval > 0, str(dm.unit))
 
 
